@@ -2,8 +2,8 @@
    these definitions of /repo; tools/srcfacts.py regenerates their normal-form digests on every run (coq/Gen/Src_*.v).
    Statements only.  Written by `tools/srcfacts.py --props` from PROP_MODULES. *)
 From Coq Require Import List String.
-From ME Require Import Model.SrcExpected Gen.Src_helpers Gen.Src_retry Gen.Src_poll Gen.Src_throttle Gen.Src_timeout Gen.Src_map Gen.Src_flat_map Gen.Src_cos Gen.Src_sync Gen.Src_event Gen.Src_common Gen.Src_logwrap Gen.Src_metrics_null
-  Proofs.Src_ok_helpers Proofs.Src_ok_retry Proofs.Src_ok_poll Proofs.Src_ok_throttle Proofs.Src_ok_timeout Proofs.Src_ok_map Proofs.Src_ok_flat_map Proofs.Src_ok_cos Proofs.Src_ok_sync Proofs.Src_ok_event Proofs.Src_ok_common Proofs.Src_ok_logwrap Proofs.Src_ok_metrics_null.
+From ME Require Import Model.SrcExpected Gen.Src_helpers Gen.Src_retry Gen.Src_poll Gen.Src_throttle Gen.Src_timeout Gen.Src_map Gen.Src_flat_map Gen.Src_cos Gen.Src_sync Gen.Src_event Gen.Src_common Gen.Src_asyncio Gen.Src_wrapped Gen.Src_logwrap Gen.Src_metrics_null
+  Proofs.Src_ok_helpers Proofs.Src_ok_retry Proofs.Src_ok_poll Proofs.Src_ok_throttle Proofs.Src_ok_timeout Proofs.Src_ok_map Proofs.Src_ok_flat_map Proofs.Src_ok_cos Proofs.Src_ok_sync Proofs.Src_ok_event Proofs.Src_ok_common Proofs.Src_ok_asyncio Proofs.Src_ok_wrapped Proofs.Src_ok_logwrap Proofs.Src_ok_metrics_null.
 
 (* more_executors/_impl/helpers.py *)
 Theorem c11_source_helpers : Src_helpers.facts = expected_helpers.
@@ -38,6 +38,12 @@ Proof. exact src_event_ok. Qed.
 (* more_executors/_impl/common.py *)
 Theorem c11_source_common : Src_common.facts = expected_common.
 Proof. exact src_common_ok. Qed.
+(* more_executors/_impl/asyncio.py *)
+Theorem c11_source_asyncio : Src_asyncio.facts = expected_asyncio.
+Proof. exact src_asyncio_ok. Qed.
+(* more_executors/_impl/wrapped.py *)
+Theorem c11_source_wrapped : Src_wrapped.facts = expected_wrapped.
+Proof. exact src_wrapped_ok. Qed.
 (* more_executors/_impl/logwrap.py *)
 Theorem c11_source_logwrap : Src_logwrap.facts = expected_logwrap.
 Proof. exact src_logwrap_ok. Qed.
@@ -56,5 +62,7 @@ Print Assumptions c11_source_cos.
 Print Assumptions c11_source_sync.
 Print Assumptions c11_source_event.
 Print Assumptions c11_source_common.
+Print Assumptions c11_source_asyncio.
+Print Assumptions c11_source_wrapped.
 Print Assumptions c11_source_logwrap.
 Print Assumptions c11_source_metrics_null.
